@@ -180,26 +180,30 @@ fn run(f: &[String]) -> String {
                 let max: usize = f[3].parse().unwrap();
                 let stdin_text = if f.len() > 4 { f[4].replace("\\n", "\n") } else { String::new() };
                 let mut ipt = CustomReader::new(stdin_text);
-                let mut o = CustomWriter::new(|_| Ok(()));
-                let mut e = CustomWriter::new(|_| Ok(()));
+                let mut o: Vec<u8> = Vec::new();
+                let mut e: Vec<u8> = Vec::new();
                 let mut loc = 0usize;
                 let mut steps = 0usize;
+                let mut failed = false;
                 while loc < ncode && steps < max {
-                    let (s2, l2) = execute_one(&mut ipt, &mut o, &mut e, st, loc).unwrap();
-                    st = s2;
-                    loc = l2;
-                    steps += 1;
+                    match execute_one(&mut ipt, &mut o, &mut e, st.clone(), loc) {
+                        Ok((s2, l2)) => { st = s2; loc = l2; steps += 1; }
+                        Err(_) => { failed = true; break; }
+                    }
                 }
                 let mut idxs = st.get_all_stack_index();
                 idxs.sort();
                 let mut out = format!("loc={} cur={}", loc, st.current_stack());
+                if failed { out = format!("ERROR at loc={}", loc); }
                 for i in idxs {
                     let stack = st.get_stack(i).clone();
-                    if !stack.is_empty() {
+                    if !stack.is_empty() && !failed {
                         out.push_str(&format!(" |{}=", i));
                         out.push_str(&stack.iter().map(|x| x.to_string()).collect::<Vec<_>>().join(" "));
                     }
                 }
+                let hex = |v: &Vec<u8>| v.iter().map(|b| format!("{:02x}", b)).collect::<String>();
+                out.push_str(&format!(" out={} err={}", hex(&o), hex(&e)));
                 out
             }
             "opt.cmp" => {
